@@ -2380,6 +2380,47 @@ fn write_array_data(
     ipc_write_context: &mut IpcWriteContext,
     write_options: &IpcWriteOptions,
 ) -> Result<i64, ArrowError> {
+    // A union that is the child of a sliced parent (list, map, ...) carries the slice as an
+    // `ArrayData` offset and length. Its buffers are written as they are, so apply the slice
+    // first: type ids (and dense offsets) are sliced, the children of a sparse union as well.
+    if let DataType::Union(_, mode) = array_data.data_type() {
+        let children_longer = *mode == UnionMode::Sparse
+            && array_data
+                .child_data()
+                .iter()
+                .any(|child| child.len() != array_data.len());
+        if array_data.offset() != 0 || children_longer {
+            let (start, len) = (array_data.offset(), array_data.len());
+            let builder = ArrayData::builder(array_data.data_type().clone())
+                .len(len)
+                .add_buffer(array_data.buffers()[0].slice_with_length(start, len));
+            let builder = match mode {
+                UnionMode::Dense => builder
+                    .add_buffer(array_data.buffers()[1].slice_with_length(start * 4, len * 4))
+                    .child_data(array_data.child_data().to_vec()),
+                UnionMode::Sparse => builder.child_data(
+                    array_data
+                        .child_data()
+                        .iter()
+                        .map(|child| child.slice(start, len))
+                        .collect(),
+                ),
+            };
+            // Safety: slicing the buffers and children of a valid union by its own offset and
+            // length yields a valid union
+            let unsliced = unsafe { builder.build_unchecked() };
+            return write_array_data(
+                &unsliced,
+                meta,
+                sink,
+                offset,
+                compression_codec,
+                ipc_write_context,
+                write_options,
+            );
+        }
+    }
+
     let mut offset = offset;
     let num_rows = array_data.len();
     if !matches!(array_data.data_type(), DataType::Null) {
